@@ -6,6 +6,7 @@ import (
 	"os"
 	"path/filepath"
 	"sort"
+	"strconv"
 	"strings"
 	"time"
 
@@ -111,6 +112,7 @@ type Meta struct {
 	Version         string   `json:"version"`
 	VersionSchema   string   `json:"version_schema,omitempty"`
 	Release         string   `json:"release,omitempty"`
+	PlainNumbers    bool     `json:"plain_numbers,omitempty"` // write numeric epoch/release/prerelease/metadata as YAML numbers
 	Prerelease      string   `json:"prerelease,omitempty"`
 	VersionMetadata string   `json:"version_metadata,omitempty"`
 	EmbedPre        bool     `json:"embed_pre,omitempty"`  // the prerelease is written inside the version string, not as its own key
@@ -319,10 +321,19 @@ func (c *BuildCase) ConfigMapFor(root, f string) map[string]any {
 			m[k] = v
 		}
 	}
+	// plain (unquoted) numbers for settings whose value is a canonical decimal number, the way the reference
+	// configuration of the documentation writes `epoch: 2` and `release: 1`; the parser reads them as the same strings
+	num := func(k, v string) {
+		if n, err := strconv.Atoi(v); err == nil && c.Meta.PlainNumbers && strconv.Itoa(n) == v {
+			m[k] = n
+			return
+		}
+		put(k, v)
+	}
 	put("name", c.Meta.Name)
 	put("arch", c.Meta.Arch)
 	put("platform", c.Meta.Platform)
-	put("epoch", c.Meta.Epoch)
+	num("epoch", c.Meta.Epoch)
 	vtext := c.Meta.Version
 	if c.Meta.VPrefix {
 		vtext = "v" + vtext
@@ -330,16 +341,16 @@ func (c *BuildCase) ConfigMapFor(root, f string) map[string]any {
 	if c.Meta.EmbedPre && c.Meta.Prerelease != "" {
 		vtext += "-" + c.Meta.Prerelease
 	} else {
-		put("prerelease", c.Meta.Prerelease)
+		num("prerelease", c.Meta.Prerelease)
 	}
 	if c.Meta.EmbedMeta && c.Meta.VersionMetadata != "" {
 		vtext += "+" + c.Meta.VersionMetadata
 	} else {
-		put("version_metadata", c.Meta.VersionMetadata)
+		num("version_metadata", c.Meta.VersionMetadata)
 	}
 	put("version", vtext)
 	put("version_schema", c.Meta.VersionSchema)
-	put("release", c.Meta.Release)
+	num("release", c.Meta.Release)
 	put("section", c.Meta.Section)
 	put("priority", c.Meta.Priority)
 	put("maintainer", c.Meta.Maintainer)
